@@ -227,7 +227,9 @@ func (e *Engine) intrinsic(name string) stubFn {
 			if m.protected == nil {
 				m.protected = map[*Value]*protInfo{}
 			}
-			m.protected[fp] = &protInfo{mutex: mp, label: constStr(m, a[2], "label")}
+			pi := &protInfo{mutex: mp, label: constStr(m, a[2], "label")}
+			m.protected[fp] = pi
+			m.protectMap(load(fp), pi)
 			return nil
 		}
 	case "vrf_interference":
